@@ -2,7 +2,7 @@
    apply true true = the repaired step function (new shard groups clipped to their live neighbours; dropping the default
    policy clears the default name); apply false false = today's code, refuted in Refuted.v. *)
 From Coq Require Import ZArith List Bool.
-From OG Require Import C16.Model C16.Wf C16.Proofs C16.ProofsCmd C16.ProofsSg C16.ProofsRun.
+From OG Require Import C16.Model C16.Wf C16.Proofs C16.ProofsCmd C16.ProofsSg C16.ProofsRun C16.ProofsIds.
 Import ListNotations.
 Open Scope Z_scope.
 
@@ -32,15 +32,25 @@ Theorem C16_failed_identity : forall clip cleardef c x, snd (apply clip cleardef
 Proof. exact failed_is_identity. Qed.
 Print Assumptions C16_failed_identity.
 
-(* id counters never decrease (both variants); together with C16_wf_preserved (ids are unique and at most the counters in
-   every reachable state, fresh ids are taken above the counter) this is the monotone-history half of "ids are never
-   handed out twice". PARTIAL: the statement "an id that disappeared never reappears" is not proved as a theorem over
-   runs - it needs, for each of the 16 non-issuing commands, that the id sets do not grow; that part is checked on the
-   real catalogue by the harness oracle (id-reused) after every step. *)
-Theorem C16_ids_never_reused_partial : forall clip cleardef c x, 0 <= ptnum c -> 0 <= ptper c ->
+(* id counters never decrease (both variants of the step function) *)
+Theorem C16_counters_monotone : forall clip cleardef c x, 0 <= ptnum c -> 0 <= ptper c ->
   counters_le c (fst (apply clip cleardef c x)).
 Proof. exact counters_mono. Qed.
-Print Assumptions C16_ids_never_reused_partial.
+Print Assumptions C16_counters_monotone.
+
+(* a command only introduces identifiers above everything issued so far (kinds: shard group, shard, index group, index,
+   measurement, node) *)
+Theorem C16_new_ids_fresh : forall c x k id, wf c ->
+  In id (ids k (fst (apply_repaired c x))) -> In id (ids k c) \/ issued k c < id.
+Proof. intros c x k id H. exact (step_ids c x H k id). Qed.
+Print Assumptions C16_new_ids_fresh.
+
+(* identifiers are never handed out twice, even after deletions: an identifier present at some point and gone after the
+   commands xs is absent after any continuation ys *)
+Theorem C16_ids_never_reused : forall xs ys c k id, wf c -> env_run c (xs ++ ys) ->
+  In id (ids k c) -> ~ In id (ids k (run true true c xs)) -> ~ In id (ids k (run true true c (xs ++ ys))).
+Proof. exact ids_never_reused. Qed.
+Print Assumptions C16_ids_never_reused.
 
 (* the repaired creation: the new group contains the instant, is inside one cell, and is disjoint from every live group *)
 Theorem C16_new_group_disjoint : forall c p ig t eng,
